@@ -35,6 +35,7 @@ def run(chk, st, tier):
     lines = Fm.shape_lines(shapes) + [w.line("w%d" % i) for i, w in enumerate(ws)]
     impl, model, e1, e2 = C.run_cases(lines, "C09-base", impl_cmd=[runner])
     flines = Fm.shape_lines(shapes)
+    glines = []
     plan = []
     for i, w in enumerate(ws):
         pw = Fm.parse_write(impl.get("w%d" % i))
@@ -45,7 +46,10 @@ def run(chk, st, tier):
         for kf in range(n):
             flines.append(w.line("f%d_%d" % (i, kf), failat=kf))
             plan.append((i, kf))
-    impl_f, model_f, e1, e2 = C.run_cases(flines, "C09-faults", impl_cmd=[runner])
+            if w.tag == "exhaustive":
+                # the same fault reported by a sink that took every byte: Write returns (len(p), err)
+                glines.append(w.line("g%d_%d" % (i, kf), failat=1000000 + kf))
+    impl_f, model_f, e1, e2 = C.run_cases(flines + glines, "C09-faults", impl_cmd=[runner], model_lines=flines)
     if e1[0] != 0 or e2[0] != 0:
         chk.broke("correspondence:C09", "harness rc=%s %s / driver rc=%s %s" % (e1[0], e1[1], e2[0], e2[1]))
     mism = 0
@@ -64,6 +68,16 @@ def run(chk, st, tier):
         if "1" not in flags:
             chk.fail(key, "%s: the sink failed its write #%d but no API call returned an error (calls: %s)" % (w.describe(), kf, flags), dict(w.replay(), fail_at=kf))
             continue
+        ag = impl_f.get("g%d_%d" % (i, kf))
+        if ag is not None:
+            pg = Fm.parse_write(ag)
+            if pg is None or "1" not in pg[0]:
+                chk.fail(key + "|full-length", "%s: the sink took every byte of its write #%d but returned an error, and no API call returned an error (calls: %s)" % (w.describe(), kf, pg[0] if pg else (ag or "")[:80]),
+                         dict(w.replay(), fail_at=kf, sink="returns (len(p), err)"))
+                continue
+            if pg[0] != flags:
+                chk.fail(key + "|full-length", "%s: sink write #%d failing with (len(p), err) is reported by another call (%s) than with (0, err) (%s)" % (w.describe(), kf, pg[0], flags), dict(w.replay(), fail_at=kf))
+                continue
         reported += 1
         pos = flags.index("1")
         calls["new" if pos == 0 else ("close" if pos == len(w.ops) + 1 else "write")] += 1
@@ -85,7 +99,7 @@ def run(chk, st, tier):
     if plan:
         i, kf = plan[len(plan) // 2]
         chk.sample({"workload": ws[i].describe(), "fail_at_sink_write": kf, "implementation": (impl_f.get("f%d_%d" % (i, kf)) or "")[:80], "model": (model_f.get("f%d_%d" % (i, kf)) or "")[:80]})
-    chk.coverage["rule"] = ("every Add/Write history up to length %d (quick: half of the longest) over 5 shapes, 3 codecs, page sizes 1..2, plus numeric files with 80 KB pages and a file with 70 KB string values; for each, EVERY index k of the sink Write call that fails (k = 0 .. number of sink writes - 1); "
+    chk.coverage["rule"] = ("every Add/Write history up to length %d (quick: half of the longest) over 5 shapes, 3 codecs, page sizes 1..2, plus numeric files with 80 KB pages and a file with 70 KB string values; for each, EVERY index k of the sink Write call that fails (returning (0, err), and for the small histories also (len(p), err)) (k = 0 .. number of sink writes - 1); "
                             "the real writer's per-call error flags and the writes that reached the sink are compared with the model's (run_fault over the model's sink-write sequence). distinct = distinct (workload,k)." % maxlen)
     chk.coverage["explanation"] = "sink_fault_reported / run_fault_hit (coq/props/C09.v): in the model every fault is reported by the call in which it happens; the enumeration ties the model's sink-write sequence and error propagation to the code."
     chk.assumptions += ['error propagation in the model is by construction; the enumeration over every k is what ties it to the code', 'a sink that returns an error has written nothing (the harness sink returns 0, err)']
